@@ -113,6 +113,18 @@ def handlers : List (String × Handler) := [
     match BSE.Api.selectElements els sel with
     | .ok d => pure (obj [("ok", toJson (Dict.keys d))])
     | .error e => pure (obj [("raise", Json.str e.name)])),
+  ("apply_selection", fun j => do
+    -- the composed basis (slimmed by the harness to what the front end looks at), the index display name, the expanded selection
+    let basis ← match ← toJ (← j.getObjVal? "basis") with
+      | .obj kvs => pure kvs
+      | _ => throw "basis must be an object"
+    let display ← getStr j "display"
+    let sel : Option (List String) ← match j.getObjVal? "sel" with
+      | .ok (Json.arr a) => do pure (some (← a.toList.mapM (·.getStr?)))
+      | _ => pure none
+    match BSE.Api.applySelection basis display sel with
+    | .ok d => pure (obj [("ok", ofJ (.obj d))])
+    | .error e => pure (obj [("raise", Json.str e.name)])),
   ("resolve_version", fun j => do
     let latest ← getStr j "latest"
     let vs ← getStrList j "versions"
